@@ -11,7 +11,9 @@ from __future__ import annotations
 
 KINDS = ["group_bad_child_after_good", "typed_container_bad_extra", "scalar_out_of_domain", "decode_garbage_message",
          "decode_truncated_avp", "typed_wrong_attribute_type", "group_value_of_malformed_payload",
-         "group_bad_child_first", "nested_group_bad_leaf", "utf8_invalid_bytes_value"]
+         "group_bad_child_first", "nested_group_bad_leaf", "utf8_invalid_bytes_value",
+         "group_member_not_an_avp", "group_member_payload_none", "group_member_payload_int",
+         "message_bad_avp_after_good", "message_header_field_not_int", "unpacker_reset_after_failure"]
 COUNTS: dict = {}
 
 
@@ -42,6 +44,30 @@ def provoke(rng, kind: str | None = None) -> str:
             inner.value = [Avp.new(C.AVP_CC_TIME, value=7)]
             g = Avp.new(C.AVP_MULTIPLE_SERVICES_CREDIT_CONTROL)
             g.value = [inner, Avp.new(C.AVP_RATING_GROUP, value=1), _bad_avp()]
+        elif kind == "group_member_not_an_avp":
+            g = Avp.new(C.AVP_SUBSCRIPTION_ID)
+            g.value = [Avp.new(C.AVP_SUBSCRIPTION_ID_TYPE, value=0), "41780009999"]
+        elif kind in ("group_member_payload_none", "group_member_payload_int"):
+            bad = Avp(code=20301, vendor_id=99999)
+            bad.payload = None if kind.endswith("none") else 7
+            g = Avp.new(C.AVP_MULTIPLE_SERVICES_CREDIT_CONTROL)
+            g.value = [Avp.new(C.AVP_RATING_GROUP, value=2), bad]
+        elif kind == "message_bad_avp_after_good":
+            # a message whose encoding fails part way through its AVP list
+            m = Message()
+            m.header.command_code = 8388620
+            m.append_avp(Avp.new(C.AVP_ORIGIN_HOST, value=b"errinject.example"))
+            m.append_avp(_bad_avp())
+            m.as_bytes()
+        elif kind == "message_header_field_not_int":
+            m = Message()
+            m.append_avp(Avp.new(C.AVP_ORIGIN_HOST, value=b"errinject.example"))
+            m.header.hop_by_hop_identifier = "seven"
+            m.as_bytes()
+        elif kind == "unpacker_reset_after_failure":
+            from diameter.message.packer import Unpacker
+            u = Unpacker(b"\x00\x00\x01\x08\x40\x00\x00\x20" + b"x" * 5)
+            Avp.from_unpacker(u)
         elif kind == "typed_container_bad_extra":
             from diameter.message.commands import CreditControlRequest
             from diameter.message.commands.credit_control import MultipleServicesCreditControl
